@@ -148,6 +148,44 @@ func init() {
 	rt["StrEq"] = func(fr *frame, args []value) value {
 		return fr.i.ex.ropeEq(toRope(args[0]), toRope(args[1]))
 	}
+	// ---- file system model ----
+	rt["FSReset"] = func(fr *frame, args []value) value {
+		fr.i.memfs = nil
+		m := fr.i.fs()
+		m.nodes[fsRoot] = &fsNode{dir: true}
+		return fsRoot
+	}
+	rt["FSCrashBefore"] = func(fr *frame, args []value) value {
+		m := fr.i.fs()
+		var n int
+		if sb, ok := args[0].(symBV); ok {
+			n = int(fr.i.ex.concretize(sb, 0, 64))
+		} else {
+			n = int(asInt64(args[0]))
+		}
+		if n <= 0 {
+			m.crashAt = 0
+		} else {
+			m.crashAt = m.ops + n
+		}
+		return nil
+	}
+	rt["FSOps"] = func(fr *frame, args []value) value { return fr.i.fs().ops }
+	rt["FSReboot"] = func(fr *frame, args []value) value {
+		fr.i.fsReboot()
+		return nil
+	}
+	rt["FireTickers"] = func(fr *frame, args []value) value {
+		fr.i.runQueued() // let goroutines reach the point where they create and wait on their tickers
+		for _, ch := range fr.i.tickers {
+			select {
+			case ch <- timeVal{tns(fr.i.ex.timeNow())}:
+			default:
+			}
+		}
+		fr.i.runQueued()
+		return nil
+	}
 	rt["Tier"] = func(fr *frame, args []value) value { return fr.i.ex.tier }
 	rt["Symbolic"] = func(fr *frame, args []value) value { return true }
 	rt["Quiesce"] = func(fr *frame, args []value) value {
@@ -351,6 +389,15 @@ func (i *interpreter) ioEOF() value {
 // readerContent extracts the full remaining content of a modelled io.Reader.
 func (i *interpreter) readerContent(fr *frame, rd iface) (symStr, bool) {
 	if p, ok := rd.v.(*value); ok && p != nil {
+		if op, ok := (*p).(*opaque); ok && op.kind == "fsfile" {
+			h := op.data.(*fsHandle)
+			r := i.fsContentFrom(h)
+			h.pos = -1
+			if l, ok := ropeConcreteLen(h.node.data); ok {
+				h.pos = l
+			}
+			return r, true
+		}
 		if op, ok := (*p).(*opaque); ok && op.kind == "memfile" {
 			f := op.data.(*memFile)
 			r := f.content()
